@@ -180,6 +180,18 @@ func runC06(c *Check) {
 						}
 					}
 				}
+				if !okv {
+					// `ok := err == nil` stored directly: the value, taken as a condition, is the test itself
+					has := func(ls []Lit, pat LitPat) bool {
+						for _, l := range ls {
+							if pat(l) {
+								return true
+							}
+						}
+						return false
+					}
+					okv = has(ffa.lits(st.Val, true, 0), noErr(true)) && has(ffa.lits(st.Val, false, 0), noErr(false))
+				}
 				c.Req(okv, fname, p.InstrPos(st), "result-ok-flag", "the stored ok flag is true exactly when no error was given", "stored "+p.T(st.Val).String())
 			}
 		}
